@@ -418,13 +418,13 @@ Section Complete.
               assert (f = g) by congruence. subst g.
               destruct (FL1 f (nth_error_In _ _ Hf) Fg) as [Skf Muf].
               pose proof (FS f t (nth_error_In _ _ Hj) Fg) as FT.
-              unfold SpecSound.here_value. rewrite Skf, Fg, (flat_target_here t _ FT).
+              unfold SpecSound.here_value. rewrite Skf, Fg, FT.
               assert (v = vf) by (unfold check_one in Iv; destruct (needs_check f); cbn [fst init_field] in Iv; congruence). subst v.
               rewrite (conv_of_nth pf reparse reparse_arr reparse_preds sugg sim interp_with interp_fn fields i f _ Hj), Fl, (unclaimed_is_flat HFl) in R.
               assert (FLv : from_list (impl t) unclaimed = Ok vf).
               { destruct (names fields); [exact R|]. destruct (from_list (impl t) unclaimed); cbn [map_err] in R; congruence. }
               apply (IHc_nth i f _ Hj (dummy_list unclaimed) vf eq_refl).
-              unfold dummy_list. rewrite from_meta_list by (now apply flat_target_meta). now rewrite FLv.
+              rewrite flat_meta_list by exact FT. now rewrite FLv.
             * rewrite nth_error_set_slot_other in Hs by (auto; lia). rewrite (S1 j f Hf) in Hs. injection Hs as <-.
               assert (Ff : fi_flatten f = false).
               { destruct (fi_flatten f) eqn:Ff; [|reflexivity]. exfalso. apply Ne. exact (FL2 j i f g Hf Ng Ff Fg). }
